@@ -52,17 +52,41 @@ struct Node {
 
 impl PartialEq for Node {
     fn eq(&self, o: &Node) -> bool {
+        out(format!("tcmp eq {} {}", self.id, o.id));
         self.id == o.id
+    }
+    #[allow(clippy::partialeq_ne_impl)]
+    fn ne(&self, o: &Node) -> bool {
+        out(format!("tcmp ne {} {}", self.id, o.id));
+        self.id != o.id
     }
 }
 impl Eq for Node {}
 impl PartialOrd for Node {
     fn partial_cmp(&self, o: &Node) -> Option<std::cmp::Ordering> {
+        out(format!("tcmp partial_cmp {} {}", self.id, o.id));
         Some(self.id.cmp(&o.id))
+    }
+    fn lt(&self, o: &Node) -> bool {
+        out(format!("tcmp lt {} {}", self.id, o.id));
+        self.id < o.id
+    }
+    fn le(&self, o: &Node) -> bool {
+        out(format!("tcmp le {} {}", self.id, o.id));
+        self.id <= o.id
+    }
+    fn gt(&self, o: &Node) -> bool {
+        out(format!("tcmp gt {} {}", self.id, o.id));
+        self.id > o.id
+    }
+    fn ge(&self, o: &Node) -> bool {
+        out(format!("tcmp ge {} {}", self.id, o.id));
+        self.id >= o.id
     }
 }
 impl Ord for Node {
     fn cmp(&self, o: &Node) -> std::cmp::Ordering {
+        out(format!("tcmp cmp {} {}", self.id, o.id));
         self.id.cmp(&o.id)
     }
 }
@@ -76,11 +100,12 @@ impl Clone for Node {
             s.next_pid += 1;
             id
         });
+        let unlinked = ST.with(|s| s.borrow().clone_unlinked);
         Node {
             id,
             canary: Cell::new(ALIVE),
-            strong: RefCell::new(self.strong.borrow().iter().cloned().collect()),
-            weak: RefCell::new(self.weak.borrow().iter().cloned().collect()),
+            strong: RefCell::new(if unlinked { vec![] } else { self.strong.borrow().iter().cloned().collect() }),
+            weak: RefCell::new(if unlinked { vec![] } else { self.weak.borrow().iter().cloned().collect() }),
         }
     }
 }
@@ -139,6 +164,7 @@ struct State {
     junk: Vec<Vec<u8>>,
     seed: u64,
     addr2obj: HashMap<usize, usize>,
+    clone_unlinked: bool,
 }
 
 thread_local! {
@@ -323,6 +349,7 @@ fn run_op(op: &Op, _in_dtor: bool) {
                         _ => panic!("SCRIPT: cannot drop raw"),
                     }
                 }
+                "clone_mode" => ST.with(|s| s.borrow_mut().clone_unlinked = a[1] == "unlinked"),
                 "drop_if" => {
                     let h = ST.with(|s| s.borrow_mut().handles.remove(a[1]));
                     if let Some(h) = h {
